@@ -295,6 +295,11 @@ class SimSocket(object):
                               "Resource temporarily unavailable")
       if out[0] == "fatal":
         self.tx_dead = True
+        if out[1] == errno.ECONNRESET:
+          # a reset connection is dead in both directions: the reader sees
+          # it too (and will close from its side)
+          self.rx_reset = True
+          sim._poke()
         raise ConnectionResetError(out[1], "Connection reset by peer")
       if out[0] == "part":
         # accept between 1 and n-1 bytes (all if n == 1)
